@@ -24,6 +24,8 @@ pub enum CloseKind {
 
 #[derive(Clone, Debug)]
 pub struct Closed {
+    /// endpoint-internal connection id (creation order)
+    pub id: u64,
     pub t_ns: u64,
     pub kind: CloseKind,
     pub code: Option<u64>,
@@ -143,7 +145,7 @@ impl event::Subscriber for EventTap {
         let mut o = self.obs.lock().unwrap();
         let t = t_of(meta);
         o.note(t, format!("s2n connection_closed {:?}", e.error));
-        o.closed.push(Closed { t_ns: t, kind, code, local, text: format!("{:?}", e.error) });
+        o.closed.push(Closed { id: meta.id, t_ns: t, kind, code, local, text: format!("{:?}", e.error) });
     }
 
     fn on_packet_lost(&mut self, _c: &mut (), meta: &events::ConnectionMeta, e: &events::PacketLost) {
@@ -163,6 +165,11 @@ impl event::Subscriber for EventTap {
         let mut o = self.obs.lock().unwrap();
         if let Some(n) = frame_name(&e.frame, true) {
             o.bump(n);
+        }
+        if matches!(e.frame, events::Frame::ConnectionClose { .. })
+            && matches!(e.packet_header, events::PacketHeader::Initial { .. } | events::PacketHeader::Handshake { .. })
+        {
+            o.bump("tx_connection_close_long_header");
         }
         if o.keep_tail && !matches!(e.frame, events::Frame::Padding { .. }) {
             o.note(t_of(meta), format!("s2n tx {:?} {:?}", e.packet_header, e.frame));
